@@ -229,7 +229,12 @@ def convex_hull(
     crosses = triangles.cross(vertices[faces])
 
     # qhull returns zero magnitude faces like an asshole
-    normals, valid = util.unitize(crosses, check_valid=True)
+    # for a very small point set every face is small: the cutoff for
+    # a zero magnitude face is taken relative to the largest face
+    cross_peak = np.sqrt((crosses**2).sum(axis=1).max()) if len(crosses) else 1.0
+    normals, valid = util.unitize(
+        crosses, check_valid=True, threshold=tol.zero * min(1.0, cross_peak)
+    )
 
     # remove zero magnitude faces
     faces = faces[valid]
